@@ -13,9 +13,11 @@ LEVEL = "fault_enumeration"
 SHARDS = 48
 RULE = ("seeded runs; scenarios: S0 plant a prefix D[:k] of a real index document (user cache "
         "dir / adjacent / both; k in {0,1,2,|D|-1,|D|} + structural boundaries + random; thorough: "
-        "EVERY k in 0..|D| for one level-1.1 and one level-1.5 product, sharded over the first "
+        "multi-byte character cuts; EVERY k in 0..|D| for one level-1.1 and one level-1.5 product, sharded over the first "
         "%d runs), S1 kill of the create_cache / CLI writer at byte k (or at close) of the n-th "
-        "file it writes, S2 ENOSPC at byte k, S3 writer paused at byte k while a default open "
+        "file it writes or just before its n-th disk-mutating operation (mkdir / open / every "
+        "write chunk / close / rename / unlink / fsync), S2 ENOSPC at byte k or at such an "
+        "operation, S3 writer paused at byte k while a default open "
         "runs, S4 two interleaved writers (+reader) at write-chunk granularity under the seeded "
         "scheduler; after the faults: default open == uncached reference, create_cache=True "
         "succeeds, next default open == reference and reads no image records. Each planted prefix "
